@@ -103,6 +103,10 @@ impl SvgElement {
 //@        || self.name@ == "polygon"@ || self.name@ == "polyline"@ || self.name@ == "rect"@ || self.name@ == "text"@ || self.name@ == "use"@ || self.name@ == "reuse"@)
 //@end
 }
+impl OutputEvent {
+    /// R-matches: `matches!(ev, OutputEvent::Empty(_))` on the opaque event type
+    #[verifier::external_body] pub fn is_empty_elem(&self) -> (r: bool) ensures r == is_empty_event(*self) { unimplemented!() }
+}
 impl InputEvent {
     #[verifier::external_body] pub fn text_string(&self) -> Option<String> { unimplemented!() }
     #[verifier::external_body] pub fn cdata_string(&self) -> Option<String> { unimplemented!() }
@@ -187,26 +191,44 @@ pub open spec fn only_real_svg_changed(pre: TransformerContext, post: Transforme
 #[verifier::external_body] pub struct Writer { _p: u8 }
 pub enum WriteOp { List(OutputList), RootSvg, AutoStyles }
 impl Writer { pub uninterp spec fn log(&self) -> Seq<WriteOp>; }
+/// start tags minus end tags of an event list (Empty counts 0)
+pub uninterp spec fn balance(l: OutputList) -> int;
+/// how many elements everything written so far leaves open (start tags minus end tags)
+impl Writer { pub uninterp spec fn depth(&self) -> int; }
+pub open spec fn pivot_balance(p: Option<OutputEvent>) -> int { if p is Some && is_start_event(p->Some_0) { 1 } else { 0 } }
+pub uninterp spec fn is_start_event(e: OutputEvent) -> bool;     // OutputEvent::Start(_)
+pub uninterp spec fn is_empty_event(e: OutputEvent) -> bool;     // OutputEvent::Empty(_)
 impl OutputList {
     #[verifier::external_body]
     pub fn write_to(&self, writer: &mut Writer) -> (r: Result<()>)
-        ensures final(writer).log() == old(writer).log().push(WriteOp::List(*self))
+        ensures final(writer).log() == old(writer).log().push(WriteOp::List(*self)),
+            final(writer).depth() == old(writer).depth() + balance(*self),
+    { unimplemented!() }
+    /// (before, first Start/Empty element of that name, after): the three parts make up the list
+    #[verifier::external_body]
+    pub fn partition(&self, name: &str) -> (r: (OutputList, Option<OutputEvent>, OutputList))
+        ensures balance(*self) == balance(r.0) + pivot_balance(r.1) + balance(r.2),
+            r.1 is None ==> balance(r.2) == 0,
+            r.1 is Some ==> (is_start_event(r.1->Some_0) != is_empty_event(r.1->Some_0)),      // the pivot is a Start or an Empty element
     { unimplemented!() }
     #[verifier::external_body]
-    pub fn partition(&self, name: &str) -> (OutputList, Option<OutputEvent>, OutputList) { unimplemented!() }
+    pub fn debug_header(config: &TransformConfig) -> (r: OutputList) ensures balance(r) == 0 { unimplemented!() }
+    /// R-abstract: `OutputList::from([OutputEvent::End("svg".to_owned())].as_slice())`: one end tag
     #[verifier::external_body]
-    pub fn debug_header(config: &TransformConfig) -> OutputList { unimplemented!() }
+    pub fn root_end() -> (r: OutputList) ensures balance(r) == -1 { unimplemented!() }
 }
 //@item src/transform.rs :: struct Transformer
 //@end
 impl Transformer {
     #[verifier::external_body]
     fn write_root_svg(&self, first_svg: OutputEvent, bbox: Option<BoundingBox>, writer: &mut Writer) -> (r: Result<()>)
-        ensures final(writer).log() == old(writer).log().push(WriteOp::RootSvg)
+        ensures final(writer).log() == old(writer).log().push(WriteOp::RootSvg),
+            final(writer).depth() == old(writer).depth() + 1,      // one start tag (U-root: C02.root.single)
     { unimplemented!() }
     #[verifier::external_body]
     fn write_auto_styles(&self, events: &mut OutputList, writer: &mut Writer) -> (r: Result<()>)
-        ensures final(writer).log() == old(writer).log().push(WriteOp::AutoStyles)
+        ensures final(writer).log() == old(writer).log().push(WriteOp::AutoStyles),
+            final(writer).depth() == old(writer).depth(), balance(*final(events)) == balance(*old(events)),   // complete <style>/<defs> elements
     { unimplemented!() }
 
     /// the document read from the input: a deterministic function of the reader
@@ -225,8 +247,11 @@ impl Transformer {
 //@item src/transform.rs :: impl Transformer :: fn postprocess
 //@ replace[R-opaque-type] <<<writer: &mut dyn Write,>>> => <<<writer: &mut Writer,>>>
 //@ replace[R-abstract] <<<            OutputList::from(vec![\n                OutputEvent::Text(indent.clone()),\n                OutputEvent::Comment(format!(\n                    " Generated by {} v{} ",\n                    env!("CARGO_PKG_NAME"),\n                    env!("CARGO_PKG_VERSION")\n                )),\n                OutputEvent::Text(indent),\n                OutputEvent::Comment(format!(" Config: {:?} ", self.context.config)),\n            ])\n            .write_to(writer)?;>>> => <<<            OutputList::debug_header(&self.context.config).write_to(writer)?;>>>
+//@ replace[R-abstract] <<<OutputList::from([OutputEvent::End("svg".to_owned())].as_slice())>>> => <<<OutputList::root_end()>>>
+//@ replace[R-matches] <<<matches!(first_svg, OutputEvent::Empty(_))>>> => <<<first_svg.is_empty_elem()>>>
 //@ ensures
 //@ - self.context.real_svg ==> final(writer).log() == old(writer).log().push(WriteOp::List(output.0))     @@C03.post.none @@C05.post.none
+//@ - r is Ok ==> final(writer).depth() == old(writer).depth() + balance(output.0)     @@C02.root.closed
 //@end
 }
 
